@@ -57,6 +57,14 @@ impl Prop for C17 {
         if rng.chance(1, 4) {
             c.await_breaks.push(rng.below(3) as u32);
         }
+        if rng.chance(1, 3) {
+            let cmd = match rng.below(3) {
+                0 => Some("TRACE".to_string()),
+                1 => Some("PRINT 0".to_string()),
+                _ => None,
+            };
+            c.reply_breaks.push((rng.below(3) as u32, cmd));
+        }
         c
     }
 
@@ -67,7 +75,7 @@ impl Prop for C17 {
             let mut cc = c.clone();
             cc.tracing = t;
             cc.warnings = w;
-            let trace_cmds = cc.stop_cmds.iter().any(|x| x == "TRACE");
+            let trace_cmds = cc.stop_cmds.iter().any(|x| x == "TRACE") || cc.reply_breaks.iter().any(|(_, c)| c.as_deref() == Some("TRACE"));
             let cmp = Compare {
                 prop: "C17",
                 trace: t || trace_cmds,
